@@ -510,6 +510,12 @@ func (in *Interp) verifrt(name string, args []Value, site ssa.Instruction) (Valu
 	case "SetDrawMode":
 		in.drawMode = int(args[0].(int64))
 		return nil, true
+	case "SymbolicSeed":
+		if in.symSeeds == nil {
+			in.symSeeds = map[int64]bool{}
+		}
+		in.symSeeds[args[0].(int64)] = true
+		return nil, true
 	case "Generators":
 		seed := args[0].(int64)
 		st := &randStream{seed: seed}
@@ -522,7 +528,7 @@ func (in *Interp) verifrt(name string, args []Value, site ssa.Instruction) (Valu
 				}
 				return real.Float64()
 			}
-			if in.drawMode > 0 {
+			if in.drawMode > 0 && !in.symSeeds[seed] {
 				k := st.k
 				st.k++
 				return ConcreteDraw(in.drawMode, seed, k)
